@@ -227,6 +227,7 @@ type hist struct {
 	prevOp  string
 	rolled  bool // at least one rollup job completed
 
+	concurrent    bool         // a flush is running while rollup jobs run
 	world         *imgfs.World // crash part
 	beforeTrigger func()       // crash part: switch imaging on
 	afterIdle     func()       // crash part: switch imaging off
@@ -628,11 +629,16 @@ func (h *hist) registerFile(f *srcFamily, before famBook, cells int) *fileRec {
 	}
 	h.files = append(h.files, rec)
 	want := append([]int64{}, h.m.targets...)
-	if fmt.Sprint(after.Marks[rec.Number]) != fmt.Sprint(want) {
+	if h.concurrent {
+		// a rollup job is running: it may already have processed (and unmarked) the new table
+	} else if fmt.Sprint(after.Marks[rec.Number]) != fmt.Sprint(want) {
 		h.res.violation("C04/bookkeeping/flush-does-not-mark-new-file-for-every-target-interval", fmt.Sprintf("step %d: flushed table %d of source family %s/%s carries rollup marks %v, configured target intervals %v",
 			h.stepNo, rec.Number, f.place.Segment, f.place.Family, after.Marks[rec.Number], want), h.witness(nil))
 	}
 	for n, ivs := range before.Marks {
+		if h.concurrent {
+			break
+		}
 		if fmt.Sprint(after.Marks[n]) != fmt.Sprint(ivs) {
 			h.res.violation("C04/bookkeeping/flush-changes-marks-of-older-files", fmt.Sprintf("step %d: rollup marks of table %d changed from %v to %v by a flush", h.stepNo, n, ivs, after.Marks[n]), h.witness(nil))
 		}
@@ -646,6 +652,9 @@ func (h *hist) registerFile(f *srcFamily, before famBook, cells int) *fileRec {
 func (h *hist) flushDirect(f *srcFamily) bool {
 	seq := len(h.files)
 	fo := blocks.FileOptions{Seq: seq, MaxSlot: h.slots() - 1, PSilent: 0.05, NoLongRange: h.spec.Src == msSecond && h.spec.Tier == "quick"}
+	if h.spec.Gen.BigSeries > 0 {
+		fo.AllMetrics, fo.NoLongRange, fo.PSilent = true, true, 0
+	}
 	blks, shape := h.u.GenFile(h.rnd, fo)
 	blks = append(blks, h.witnessBlock(seq))
 	sort.Slice(blks, func(i, j int) bool { return blks[i].Metric < blks[j].Metric })
@@ -795,8 +804,13 @@ const (
 )
 
 // rollupStep triggers the rollup, waits for quiescence and applies the oracle.
-func (h *hist) rollupStep(trig string) {
+func (h *hist) rollupStep(trig string) { h.rollupStepWith(trig, nil) }
+
+// rollupStepWith: during, if not nil, runs right after the jobs were started (ForceRollup only starts goroutines):
+// a flush that commits while the rollup jobs run.
+func (h *hist) rollupStepWith(trig string, during func()) {
 	pre := h.books()
+	nBefore := len(h.files)
 	if h.beforeTrigger != nil {
 		h.beforeTrigger()
 	}
@@ -806,6 +820,9 @@ func (h *hist) rollupStep(trig string) {
 		} else {
 			st.ForceRollup()
 		}
+	}
+	if during != nil {
+		during()
 	}
 	h.waitAllIdle()
 	if h.afterIdle != nil {
@@ -829,6 +846,19 @@ func (h *hist) rollupStep(trig string) {
 			for _, fr := range h.files {
 				if fr.Fam == f.Idx && pre[f.Idx].has(fr.Number, iv) {
 					pend = append(pend, fr)
+				}
+			}
+			// a table flushed while the jobs were running: either the job saw its mark (then it must be in the target and
+			// the mark is gone) or the mark is still there for the next job
+			for _, fr := range h.files[nBefore:] {
+				if fr.Fam != f.Idx {
+					continue
+				}
+				if !post[f.Idx].has(fr.Number, iv) {
+					ran = append(ran, fr)
+					h.res.count("concurrent_flush_taken_by_the_running_job."+typ, 1)
+				} else {
+					h.res.count("concurrent_flush_left_for_the_next_job."+typ, 1)
 				}
 			}
 			if len(pend) == 0 {
@@ -1202,6 +1232,16 @@ func (h *hist) run(dir string) {
 			if h.prevOp == "flush" {
 				h.checkSources("rollup")
 			}
+		case "rollup+flush":
+			h.rollupStepWith(trigForce, func() {
+				h.concurrent = true
+				if spec.Kind == "ingest" {
+					h.flushIngest(h.fams[arg])
+				} else {
+					h.flushDirect(h.fams[arg])
+				}
+				h.concurrent = false
+			})
 		case "tick":
 			h.rollupStep(trigTick)
 		case "compact":
